@@ -105,6 +105,7 @@ type hostileResult struct {
 	panicky  bool
 	consumed int64
 	peakKB   int64
+	stackKB  int64 // growth of goroutine stacks in use (deep recursion shows here long before it overflows)
 	sum      uint32
 }
 
@@ -161,6 +162,7 @@ func readHostile(c *Ctx, src io.Reader, pos func() int64, conc int, mode int, bl
 		res.peakKB = rssKB("VmHWM") - before
 	}
 	runtime.ReadMemStats(&ms1)
+	res.stackKB = int64(ms1.StackInuse-ms0.StackInuse) / 1024
 	if d := int64(ms1.Sys-ms0.Sys) / 1024; d > res.peakKB {
 		res.peakKB = d // memory obtained from the OS (reserved, even if never touched)
 	}
@@ -193,6 +195,13 @@ func c07Judge(c *Ctx, res hostileResult, conc, blockMax int, what string, det ma
 	// (observed: 5000 empty blocks of a 4 MiB-block frame at concurrency 4 transiently reach > 1 GiB).
 	if res.peakKB > memBoundKB(conc, blockMax) {
 		c.Count("reads_above_peak_memory_guideline", 1)
+	}
+	if res.stackKB > c.counters["max_stack_growth_kb"] {
+		c.counters["max_stack_growth_kb"] = res.stackKB
+	}
+	if res.stackKB > 64*1024 {
+		det["stack_growth_kb"] = res.stackKB
+		c.Violation("stack-growth/"+what, fmt.Sprintf("goroutine stacks grew by %d KiB while reading (%s, concurrency %d): recursion depth proportional to the input", res.stackKB, what, conc), det)
 	}
 	if res.peakKB > c.counters["max_peak_kb"] {
 		c.counters["max_peak_kb"] = res.peakKB
@@ -519,7 +528,7 @@ func c07Repeat(c *Ctx, k int, g *prng.Rng) {
 		{"legacy-magic-repeated", nil, u32(ref.MagicLegacy), legacyBlock, N, 1, rdSmall, 8 << 20},
 		{"legacy-magic-repeated", nil, u32(ref.MagicLegacy), legacyBlock, N, 1, rdWriteTo, 8 << 20},
 		{"legacy-magic-repeated", nil, u32(ref.MagicLegacy), legacyBlock, N / 10, 4, rdSmall, 8 << 20},
-		{"skippable-frames-repeated", nil, append(append(u32(ref.MagicSkip+3), u32(2)...), 'x', 'y'), append(append([]byte{}, modernHdr...), 0, 0, 0, 0), N / 2, 1, rdSmall, 64 << 10},
+		{"skippable-frames-repeated", nil, append(append(u32(ref.MagicSkip+3), u32(2)...), 'x', 'y'), append(append([]byte{}, modernHdr...), 0, 0, 0, 0), N, 1, rdSmall, 64 << 10},
 		{"skippable-frames-repeated", nil, append(u32(ref.MagicSkip+9), u32(0)...), append(append([]byte{}, modernHdr...), 0, 0, 0, 0), N / 2, 4, rdWriteTo, 64 << 10},
 		{"empty-stored-blocks-repeated", modernHdr, u32(0x80000000), u32(0), N / 2, 1, rdSmall, 64 << 10},
 		{"empty-stored-blocks-repeated", modernHdr, u32(0x80000000), u32(0), N / 2, 1, rdWriteTo, 64 << 10},
